@@ -32,7 +32,9 @@ RULE = c01.RULE
 LEVEL_TEXT = ('Lean 4 theorems for all inputs: sequential placement is pairwise disjoint, in bounds and ends exactly at the sum; '
               'next-fit packing grows by at most one sector per inserted record (<= half a sector) so directory lengths maintained '
               'by deltas always cover their records; incremental cache = from-scratch packing; ceiling_div tie regenerated from '
-              'utils.py. The whole-image statement is decided per generated history by the allocation oracle on the independent reader.')
+              'utils.py; the packing loop of dr.py and the path-table / space-size accounting of headervd.py are regenerated from the source on every '
+              'run and proved equal to the model (dr_recalc_tie, add/remove_ptr_size_tie), and the path-table reservation is proved exact after '
+              'any history (run_exact). The whole-image statement is decided per generated history by the allocation oracle on the independent reader.')
 LEVEL_NOTE = 'Trusted: Lean kernel, reader completeness for allocation, generator coverage. See PARTIAL for the missing composition.'
 TECHNIQUE = 'Lean 4 proofs about packing/placement + independent-reader allocation oracle + cache correspondence'
 
